@@ -35,7 +35,7 @@ ASSUMPTIONS = [
     "saved queries always have a W clause; '{' and '}' occur only as reference brackets",
 ]
 REQUIRED_COUNTERS = ["enter.expand_saved_queries", "enter._get_saved_where_filter", "enter.execute_with_session"]
-MIN_JUDGED = {"quick": 250, "thorough": 5000}
+MIN_JUDGED = {"quick": 500, "thorough": 5000}
 FINDING_POOL = "C15-reference-pools-kinds-priorities"
 NAMES = ["q", "q2", "foo", "foo_bar", "foob", "saved1", "inbox", "in", "a", "zz_top"]
 ITEM_RE = re.compile(r"^[-ox~<>] (?:P\d )?(?:\d{6} )?(\d{6}#[0-9A-Za-z]{2,3})(?= |$)")
@@ -52,7 +52,7 @@ def setup_worker() -> None:
 
 
 def plan(tier: str, seed: int) -> list[dict]:
-    n_idx, n_sets, n_q = (16, 4, 6) if tier == "quick" else (120, 8, 8)
+    n_idx, n_sets, n_q = (32, 5, 6) if tier == "quick" else (160, 8, 8)
     return [{"kind": "index", "idx": i, "nsets": n_sets, "nq": n_q, "seed": seed} for i in range(n_idx)]
 
 
